@@ -83,6 +83,8 @@ def run(ctx, rep):
                 if INTERIOR.search(fl["ty"]):
                     bad.append("%s.%s" % (path, fl["name"]))
     rep.check(not bad, "L4", "C13|L4|interior", None, "interior mutability in %r" % (bad,))
+    rep.rule("B/D", "inherits C05 B/D: the project-wide key -> kind map is consulted only under the key of an import the file itself names (a lookup under the written name would make the result depend on files the file does not import)")
+    c05.resolve_type_rules(ctx, rep, "C13")
     # ---- A6 inherited from C11: a choice made in hash order inside the per-file pipeline makes a file's result depend on something else than its text and its imports' kinds
     rep.rule("A6", "inherits C11 A6 for the functions reachable from validation::validate (hash-ordered choices must be unique choices)")
     import c11
